@@ -119,8 +119,40 @@ META = {
             "(demo_closure_fails: TCALL fails InvalidProcedure inside the activation). Excluded from stage 2: rest parameters "
             "(VARARG), internal definitions, duplicate parameters ((lambda (x x) x) 1 2): Spec.Eval 2, compiler model and real VM 1 — "
             "an R7RS error; duplicate_parameters_differ), derived forms via macros (T01.2), quasiquote, call/cc, "
-            "eval/apply/map/for-each (re-dispatching builtins), GC interleaving. Open: rest parameters/internal "
-            "definitions, quasiquote (stage 3), the builtin laws (call / call_err) on the concrete heap, GC interleaving. The agreement of the REAL parse+expand+compile+run pipeline with Spec.Eval — "
+            "eval/apply/map/for-each (re-dispatching builtins), GC interleaving. STAGE 3 (Lemmas/CompileCorrect3*.lean; a second "
+            "development over the same machine / compiler model / RepData2 / World, stage 2 untouched, F2 ⊆ F3: stage3_contains_stage2), "
+            "SUCCESS CASE ONLY, all PARTIAL: compile_correct_stage3_partial = the stage-2 statement for the fragment F3 = F2 + "
+            "(lambda (x ... . r) b ...) / (lambda r b ...) + bodies (define y1 e1) ... (define yk ek) b1 ... bm (m >= 1, parameters "
+            "and defined names distinct). (1) REST PARAMETERS (closure_call_stage3_rest_partial, vararg_frame_stage3_partial): the "
+            "prologue VARARG; ENTER — VARARG's three cases of run.rs (too few arguments: excluded by Spec.Eval's success; exactly one "
+            "extra operand wrapped in place; otherwise operands popped, consed last to first, frame rewritten to args.len() operands) "
+            "against bindArgs' fresh list; the value relation VR3 is closed under heap pairs whose components are VR3 values, so the "
+            "rest list may contain closures. (2) INTERNAL DEFINITIONS (body_stage3_defines_partial): ENTER leaves the slots of the "
+            "internally defined names Undefined (new law), Spec.Eval's evalBody allocates #<undefined> variables; each define = "
+            "code of e, MOV acc <slot>, void. The fragment carries a set `us` of names that may not be READ yet and demands "
+            "(decidably) that e_i and everything nested in it, lambda bodies included, does not mention y_i ... y_k: the let*-like use. "
+            "(Mutual) recursion through internal define is therefore EXCLUDED (the closure would capture a name before its definition "
+            "has been evaluated); the simpler-looking rule 'lambda initialisers may mention later names' is unsound: "
+            "(define (g) z) (define y (g)) (define z 1) reads z uninitialised. The exclusion is needed: marwood reads the Undefined "
+            "slot silently, Spec.Eval reads #<undefined>; they print alike but a global assigned that value becomes UNBOUND in the VM "
+            "(internal_define_read_before_init_differs + real VM run: ok void, ok void, err unbound) — R7RS: an error; spec/VM "
+            "divergence at a point R7RS leaves open, not a defect. (3) apply RE-DISPATCH (apply_redispatch_stage3_partial): at the "
+            "CALL/TCALL with the apply builtin in acc and operands f a1..ak lst: one step shifts the fixed arguments over f, pushes "
+            "the list elements and the new count, winds ip back; the same instruction then dispatches f (a stage-3 closure — the "
+            "interplay with VARARG is covered — or a first-order builtin) and the run ends as that call ends; hypotheses: f is a heap "
+            "pointer, lst proper and SHORTER THAN THE MODEL'S GUARD (Machine.lean bounds the element loop by 100000 to stay total; Rust "
+            "has no bound), ListLaws (how Nil / a pair cell of a stage-1 list looks to heap.get). It is a theorem about the CALL site, "
+            "NOT integrated into the F3 induction (the guard is a property of the whole run, and the re-dispatching builtins "
+            "apply/eval/force/map/for-each are not represented values of the main theorem: Laws3.vr_no_redisp). ASSUMED Laws3 = "
+            "heap laws of stage 2 with Ext3 (= Ext2 + heap pairs and initialised slots kept) + internal slots Undefined after ENTER + "
+            "heap.put returns a pointer observing the same value / a fresh pair + `call` for FIRST-ORDER builtins. Laws3 is PROVED "
+            "for the toy heap of CompileCorrect3Toy.lean (laws3_toy: put allocates, CLOSURE/ENTER as run.rs, no builtin so call is "
+            "vacuous); every hypothesis of the main theorem discharged there for ((lambda (a . r) r) 1 2 3) (demo_stage3_rest_runs: "
+            "acc shows (2 3)) and ((lambda (x) (define y (if x 1 2)) y) #t) (demo_stage3_define_runs). NOT proved on the concrete heap "
+            "model (open: put laws, Ext3.pairs/init for the free-list allocator). Of the error cases of stage 3 only the arity error of a variadic "
+            "call is proved (closure_call_stage3_rest_arity_error_partial: fewer arguments than fixed parameters — Spec.Eval arity, the "
+            "machine's VARARG fails InvalidNumArgs at once); errors inside initialisers / bodies: open. Open: quasiquote, call/cc escapes, eval/map/for-each, recursion through internal "
+            "definitions, stage-3 error case, Laws3 on the concrete heap, the builtin laws (call / call_err) on the concrete heap, GC interleaving. The agreement of the REAL parse+expand+compile+run pipeline with Spec.Eval — "
             "i.e. the first sentence of the property — is carried ONLY by the differential correspondence (generated sessions, "
             "see coverage.streams: feature histogram, named combinations, failure classes), and the fresh-VM / independence "
             "clause on the implementation side by the two implementation-vs-implementation oracles; the theorems are about the "
@@ -228,6 +260,24 @@ THEOREMS = [
     "Marwood.Lemmas.CompileCorrect2.Conc.concrete_errLaws2",
     "Marwood.Lemmas.CompileCorrect2.Conc.demo_concrete_closure_runs",
     "Marwood.Vm.Concrete.cput_alloc",
+    "Marwood.Proofs.C01.compile_correct_stage3_partial",
+    "Marwood.Proofs.C01.stage3_contains_stage2",
+    "Marwood.Proofs.C01.closure_call_stage3_rest_partial",
+    "Marwood.Proofs.C01.closure_call_stage3_partial",
+    "Marwood.Proofs.C01.vararg_frame_stage3_partial",
+    "Marwood.Proofs.C01.body_stage3_defines_partial",
+    "Marwood.Proofs.C01.apply_redispatch_stage3_partial",
+    "Marwood.Proofs.C01.laws3_toy",
+    "Marwood.Proofs.C01.demo_stage3_rest_runs",
+    "Marwood.Proofs.C01.demo_stage3_define_runs",
+    "Marwood.Proofs.C01.internal_define_read_before_init_differs",
+    "Marwood.Proofs.C01.lambda_initialiser_rule_unsound",
+    "Marwood.Proofs.C01.closure_call_stage3_rest_arity_error_partial",
+    "Marwood.Lemmas.CompileCorrect3.compileExpr_correct3",
+    "Marwood.Lemmas.CompileCorrect3.enter_closure3",
+    "Marwood.Lemmas.CompileCorrect3.varArg_ok",
+    "Marwood.Lemmas.CompileCorrect3.step_apply",
+    "Marwood.Lemmas.CompileCorrect3.bindArgs3_inv",
     "Marwood.Proofs.C01.duplicate_parameters_differ",
     "Marwood.Proofs.C01.quoted_constant_mutation_spec",
     "Marwood.Spec.Eval.Prelude.every_macro_is_readable",
